@@ -31,25 +31,32 @@ import (
 type stmtList struct {
 	node  ast.Vertex
 	kind  string
-	start int
+	start int // start offset of the node; for a brace-less (alternative syntax) body: of its parent
+	end   int
+	alt   bool
 	stmts []ast.Vertex
 }
 
 // stmtLists collects the statement lists (kinds with an error production) of a tree.
 func stmtLists(root ast.Vertex) []stmtList {
 	var out []stmtList
-	obs.Walk(root, func(n, _ ast.Vertex, _ string, _ int) bool {
+	obs.Walk(root, func(n, parent ast.Vertex, _ string, _ int) bool {
 		k := obs.Kind(n)
 		if !gen.StmtListKinds[k] {
 			return true
 		}
+		alt := false
+		if sl, ok := n.(*ast.StmtStmtList); ok && sl.OpenCurlyBracketTkn == nil {
+			alt = true
+		}
 		for _, f := range obs.Fields(n) {
 			if f.Name == "Stmts" && f.Kind == obs.FNodes {
-				st := -1
-				if p := n.GetPosition(); p != nil {
-					st = p.StartPos
+				st, en := nodeSpan(n)
+				if alt {
+					// a brace-less body has no token of its own: it is identified through its parent
+					st, en = nodeSpan(parent)
 				}
-				out = append(out, stmtList{n, k, st, f.Nodes})
+				out = append(out, stmtList{n, k, st, en, alt, f.Nodes})
 			}
 		}
 		return true
@@ -175,8 +182,8 @@ func c07Recovery(c *core.Ctx, idx int) {
 		split := 0
 		for i := range cleanLists {
 			l := &cleanLists[i]
-			s, e := nodeSpan(l.node)
-			if l.kind != "Root" && (s < 0 || e < 0 || off < s-2 || off > e) { // (an alternative-syntax body starts at its first statement, one gap after the boundary)
+			s, e := l.start, l.end
+			if l.kind != "Root" && (s < 0 || e < 0 || off < s || off > e) {
 				continue
 			}
 			sp, ok := 0, true
@@ -214,13 +221,13 @@ func c07Recovery(c *core.Ctx, idx int) {
 			if l == cl {
 				break
 			}
-			if l.kind == cl.kind && l.start == cl.start {
+			if l.kind == cl.kind && l.start == cl.start && l.alt == cl.alt {
 				ci++
 			}
 		}
 		for i := range brokenLists {
 			l := &brokenLists[i]
-			if l.kind == cl.kind && l.start == cl.start {
+			if l.kind == cl.kind && l.start == cl.start && l.alt == cl.alt {
 				if ci == 0 {
 					bl = l
 					break
@@ -229,7 +236,7 @@ func c07Recovery(c *core.Ctx, idx int) {
 			}
 		}
 		if cl.kind == "Root" {
-			bl = &stmtList{bp.Root, "Root", 0, nil}
+			bl = &stmtList{node: bp.Root, kind: "Root"}
 			for _, f := range obs.Fields(bp.Root) {
 				if f.Name == "Stmts" {
 					bl.stmts = f.Nodes
